@@ -37,11 +37,12 @@ typedef enum {
 
 // atomic_fetch_op returns the value the object held immediately before
 // the operation (C11 7.17.7.5). The update is a compare-and-swap loop;
-// `val` is evaluated once. `obj` may be an array.
+// `val` is evaluated once and converted to the type of the object, or
+// to ptrdiff_t if the object is a pointer. `obj` may be an array.
 #define __atomic_fetch_op(obj, val, op)                                 \
   ({                                                                    \
     __typeof__(&*(obj)) __af_p = (obj);                                 \
-    __typeof__(val) __af_v = (val);                                     \
+    __typeof__(*__af_p - *__af_p) __af_v = (val);                       \
     __typeof__(*__af_p) __af_old = *__af_p;                             \
     __typeof__(*__af_p) __af_new;                                       \
     do {                                                                \
